@@ -1,92 +1,19 @@
 import EudoxiaModel.Model.Sched.Priority
 import EudoxiaModel.Model.SObs
+import EudoxiaModel.Proofs.Preempt
+import EudoxiaModel.Proofs.BestPool
+import EudoxiaModel.Proofs.PrioMulti
 /-! # C12 — priority: strict priority order, work conservation, query-only preemption (per-round theorems) -/
 namespace Eudoxia.C12
 open Eudoxia Eudoxia.Prio OpState Extracted
 
-/-- a pool is *open* for the scheduler when its snapshot still shows free CPU and free RAM -/
-def Snap.isOpen (s : Snap) : Prop := 0 < s.availC ∧ 0 < s.availR
+/-- **the pool a job is offered**: the one `get_pool_with_max_avail_ram` picks has free CPU and free RAM, and no pool with a free CPU has more free RAM -/
+theorem best_pool_is_open_with_most_free_ram (sn : List Snap) (p : Nat) (h : bestPool sn = some p) :
+    p < sn.length ∧ Snap.isOpen (sn.getD p default) ∧ ∀ s ∈ sn, s.availC > 0 → s.availR ≤ (sn.getD p default).availR :=
+  bestPool_spec sn p h
 
-theorem go_some (l : List Snap) : ∀ (i b : Nat) (m : Int), bestPool.go i l (some b) m ≠ none := by
-  induction l with
-  | nil => intro i b m; simp [bestPool.go]
-  | cons s rest ih => intro i b m; unfold bestPool.go; split <;> exact ih _ _ _
-
-theorem go_none (l : List Snap) : ∀ (i : Nat), bestPool.go i l none 0 = none ↔ ∀ s ∈ l, ¬ Snap.isOpen s := by
-  induction l with
-  | nil => intro i; simp [bestPool.go]
-  | cons s rest ih =>
-    intro i
-    unfold bestPool.go
-    split
-    · rename_i h
-      simp only [Bool.and_eq_true, decide_eq_true_eq] at h
-      constructor
-      · intro e; exact absurd e (go_some _ _ _ _)
-      · intro hn; exact absurd (⟨h.1, h.2⟩ : Snap.isOpen s) (hn s (by simp))
-    · rename_i h
-      simp only [Bool.and_eq_true, decide_eq_true_eq, not_and] at h
-      rw [ih]
-      constructor
-      · intro hn x hx
-        rcases List.mem_cons.mp hx with rfl | hx
-        · intro ho; exact h ho.1 ho.2
-        · exact hn x hx
-      · intro hn x hx; exact hn x (List.mem_cons_of_mem _ hx)
-
-/-- **work conservation, at the level of the pool choice**: the scheduler finds no pool exactly when every pool has run out of free CPU or of free RAM -/
-theorem bestPool_none_iff (sn : List Snap) : bestPool sn = none ↔ ∀ s ∈ sn, ¬ Snap.isOpen s := go_none sn 0
-
-/-- the chosen pool exists, is open, and has the most free RAM among the pools with a free CPU -/
-theorem go_spec (l : List Snap) : ∀ (i : Nat) (best : Option Nat) (m : Int) (pre : List Snap), pre.length = i → 0 ≤ m →
-    (∀ b, best = some b → b < i ∧ (pre.getD b default).availC > 0 ∧ (pre.getD b default).availR = m ∧ 0 < m) →
-    (∀ s ∈ pre, s.availC > 0 → s.availR ≤ m) →
-    ∀ p, bestPool.go i l best m = some p →
-      p < (pre ++ l).length ∧ Snap.isOpen ((pre ++ l).getD p default) ∧ ∀ s ∈ pre ++ l, s.availC > 0 → s.availR ≤ ((pre ++ l).getD p default).availR := by
-  induction l with
-  | nil =>
-    intro i best m pre hl hm hb hmax p hp
-    simp only [bestPool.go] at hp
-    obtain ⟨h1, h2, h3, h4⟩ := hb p hp
-    simp only [List.append_nil]
-    exact ⟨by omega, ⟨h2, by omega⟩, fun s hs hc => by rw [h3]; exact hmax s hs hc⟩
-  | cons s rest ih =>
-    intro i best m pre hl hm hb hmax p hp
-    unfold bestPool.go at hp
-    have happ : pre ++ s :: rest = (pre ++ [s]) ++ rest := by simp
-    rw [happ]
-    split at hp
-    · rename_i h
-      simp only [Bool.and_eq_true, decide_eq_true_eq] at h
-      refine ih (i + 1) (some i) s.availR (pre ++ [s]) (by simp [hl]) (by omega) ?_ ?_ p hp
-      · intro b hb'
-        cases hb'
-        have : (pre ++ [s]).getD i default = s := by
-          rw [List.getD_eq_getElem?_getD, List.getElem?_append_right (by omega)]; simp [hl]
-        rw [this]
-        exact ⟨by omega, h.1, rfl, by omega⟩
-      · intro x hx hc
-        rcases List.mem_append.mp hx with hx | hx
-        · have := hmax x hx hc; omega
-        · simp at hx; subst hx; omega
-    · rename_i h
-      simp only [Bool.and_eq_true, decide_eq_true_eq, not_and] at h
-      refine ih (i + 1) best m (pre ++ [s]) (by simp [hl]) hm ?_ ?_ p hp
-      · intro b hb'
-        obtain ⟨h1, h2, h3, h4⟩ := hb b hb'
-        have : (pre ++ [s]).getD b default = pre.getD b default := by
-          rw [List.getD_eq_getElem?_getD, List.getD_eq_getElem?_getD, List.getElem?_append_left (by omega)]
-        rw [this]
-        exact ⟨by omega, h2, h3, h4⟩
-      · intro x hx hc
-        rcases List.mem_append.mp hx with hx | hx
-        · exact hmax x hx hc
-        · simp at hx; subst hx; have := h hc; omega
-
-theorem bestPool_spec (sn : List Snap) (p : Nat) (h : bestPool sn = some p) :
-    p < sn.length ∧ Snap.isOpen (sn.getD p default) ∧ ∀ s ∈ sn, s.availC > 0 → s.availR ≤ (sn.getD p default).availR := by
-  have := go_spec sn 0 none 0 [] rfl (by omega) (by simp) (by simp) p h
-  simpa using this
+/-- no pool is picked exactly when every pool has run out of free CPU or free RAM -/
+theorem no_pool_iff_all_closed (sn : List Snap) : bestPool sn = none ↔ ∀ s ∈ sn, ¬ Snap.isOpen s := bestPool_none_iff sn
 
 /-- with no open pool a queue run does nothing at all -/
 theorem prQueue_closed (q : Nat) (w : World) (jobs : List Job) (sn : List Snap) (k : Nat) (acc : List Asg)
@@ -275,76 +202,14 @@ theorem round_order_and_conservation (w w' : World) (st st' : St) (res : List Re
 
 /-! ### preemption -/
 
-theorem dropWhile_head_false {α} (p : α → Bool) : ∀ (l : List α) (c : α) (more : List α), l.dropWhile p = c :: more → p c = false ∧ (c :: more) <:+ l := by
-  intro l
-  induction l with
-  | nil => intro c more h; simp at h
-  | cons x xs ih =>
-    intro c more h
-    rw [List.dropWhile_cons] at h
-    split at h
-    · obtain ⟨h1, h2⟩ := ih c more h
-      exact ⟨h1, List.IsSuffix.trans h2 (List.suffix_cons _ _)⟩
-    · rename_i hx
-      cases h
-      exact ⟨by simpa using hx, List.suffix_refl _⟩
-
-theorem getD_set_suffix (iters pools : List (List Ctr)) (pid : Nat) (more : List Ctr)
-    (h : ∀ i, iters.getD i [] <:+ pools.getD i []) (hm : more <:+ iters.getD pid []) :
-    ∀ i, (iters.set pid more).getD i [] <:+ pools.getD i [] := by
-  intro i
-  rw [List.getD_eq_getElem?_getD, List.getElem?_set]
-  split
-  · rename_i e
-    subst e
-    split
-    · exact List.IsSuffix.trans hm (h pid)
-    · simp
-  · rw [← List.getD_eq_getElem?_getD]; exact h i
-
-/-- what a preemption request may name -/
-def Preemptible (pools : List (List Ctr)) (x : Nat × Nat) : Prop :=
-  ∃ c ∈ pools.getD x.1 [], c.cid = x.2 ∧ c.prio ≠ prioQuery ∧ c.canSuspend = true
-
-theorem prSuspend_go_spec (pools : List (List Ctr)) (need n : Nat) : ∀ (fuel : Nat) (iters : List (List Ctr)) (exh : List Bool) (pid cnt : Nat)
-    (acc : List (Nat × Nat)), (∀ i, iters.getD i [] <:+ pools.getD i []) → (∀ x ∈ acc, Preemptible pools x) → acc.length = cnt → cnt ≤ need →
-    (∀ x ∈ prSuspend.go need n fuel iters exh pid cnt acc, Preemptible pools x) ∧ (prSuspend.go need n fuel iters exh pid cnt acc).length ≤ need := by
-  intro fuel
-  induction fuel with
-  | zero => intro iters exh pid cnt acc _ h2 h3 h4; simp only [prSuspend.go]; exact ⟨h2, by omega⟩
-  | succ fuel ih =>
-    intro iters exh pid cnt acc h1 h2 h3 h4
-    unfold prSuspend.go
-    split
-    · exact ⟨h2, by omega⟩
-    · split
-      · exact ⟨h2, by omega⟩
-      · simp only
-        split
-        · exact ih _ _ _ _ _ (getD_set_suffix _ _ _ _ h1 (List.nil_suffix)) h2 h3 h4
-        · rename_i c more hdw
-          obtain ⟨hq, hsuf⟩ := dropWhile_head_false _ _ _ _ hdw
-          have hmore : more <:+ iters.getD pid [] := List.IsSuffix.trans (List.suffix_cons c more) hsuf
-          have hmem : c ∈ pools.getD pid [] := (h1 pid).subset (hsuf.subset (by simp))
-          split
-          · rename_i hcs
-            refine ih _ _ _ _ _ (getD_set_suffix _ _ _ _ h1 hmore) ?_ (by simp [h3]) (by omega)
-            intro x hx
-            rcases List.mem_append.mp hx with hx | hx
-            · exact h2 x hx
-            · simp at hx; subst hx
-              exact ⟨c, hmem, rfl, by simpa using hq, hcs⟩
-          · exact ih _ _ _ _ _ (getD_set_suffix _ _ _ _ h1 hmore) h2 h3 h4
+/-- what a preemption request may name: a container of the pool's active list that is not a query container and sits at an operator boundary -/
+abbrev Preemptible := Preempt.Preemptible
 
 /-- **query-only preemption: what may be suspended.**  The scan asks for at most `need` suspensions, and each names a container of the pool's
 active list that is not a query container and can be suspended (it sits at an operator boundary). -/
 theorem prSuspend_spec (pools : List (List Ctr)) (need : Nat) :
-    (∀ x ∈ prSuspend pools need, Preemptible pools x) ∧ (prSuspend pools need).length ≤ need := by
-  unfold prSuspend
-  simp only
-  split
-  · simp
-  · exact prSuspend_go_spec pools need pools.length _ pools _ 0 0 [] (fun i => List.suffix_refl _) (by simp) rfl (by omega)
+    (∀ x ∈ prSuspend pools need, Preemptible pools x) ∧ (prSuspend pools need).length ≤ need :=
+  Preempt.prSuspend_spec pools need
 
 /-- **query-only preemption, per round**: the priority scheduler suspends only while a query job is still waiting after the round's assignments,
 at most one container per waiting query job, and only active non-query containers at an operator boundary. -/
@@ -624,5 +489,50 @@ theorem queues_only_grow_at_the_end (w : World) (st : St) (res : List Res) (newP
     · exact (susp_only_extends s'' _).trans (push_extends _ _ _)
     · exact Extends.refl s''
   exact h1.trans ((h2 _).trans (h3 _))
+
+/-! ### over whole runs -/
+
+theorem find_of_mem_nodup {l : List (Nat × Job)} (h : (l.map (·.1)).Nodup) {x : Nat × Job} (hx : x ∈ l) : l.find? (·.1 == x.1) = some x := by
+  induction l with
+  | nil => cases hx
+  | cons z zs ih =>
+    simp only [List.map_cons, List.nodup_cons] at h
+    rcases List.mem_cons.mp hx with rfl | hx'
+    · simp
+    · have hne : z.1 ≠ x.1 := fun e => h.1 (by rw [e]; exact List.mem_map_of_mem hx')
+      rw [List.find?_cons_of_neg (by simpa using hne)]
+      exact ih h.2 hx'
+
+/-- **suspended work is offered again, whole and in the very next round — in every round of every run.**  In a world that satisfies the loop invariant `PM.PMInv` of `priority` with multi-operator containers
+(which every round and tick of every run re-establishes: `C08.priority_multi_operator_run_never_raises`),
+for every container whose write-out ended in the last tick the round's re-queue step puts a job into the waiting queues whose operators are exactly the
+container's unfinished suffix -/
+theorem suspended_work_is_offered_again_whole_in_every_round_of_every_run (w : World) (st : St) (cs js : List Ctr) (newP F : List Nat) (inv : PM.PMInv w st cs js (newP ++ F)) :
+    ∀ c ∈ js, ∃ job, (prRequeueSuspended w (prNoteSuspending w (prEnqueue w st (cs.map mkRes) newP))).has job ∧ job.ops = c.unfinished := by
+  intro c hc
+  obtain ⟨_, _, _, cDS, _⟩ := PM.cidsOK_facts inv.cids
+  obtain ⟨x, hx, e⟩ := List.mem_map.mp (inv.has c hc)
+  obtain ⟨_, _, _, _, _, p, hp, hcp⟩ := inv.park c hc
+  obtain ⟨k, hk, hkp⟩ := PM.pool_index hp
+  have hndN : newP.Nodup := (List.nodup_append.mp inv.fnd).1
+  have hres : ∀ r ∈ cs.map mkRes, 0 < r.cpu ∧ 0 < r.ram := by
+    intro r hr
+    obtain ⟨c', hc', rfl⟩ := List.mem_map.mp hr
+    obtain ⟨_, _, hg⟩ := inv.res c' hc'
+    exact ⟨hg.1.2.2.2.1, hg.1.2.2.2.2⟩
+  obtain ⟨_, _, sas, _⟩ := PM.prEnqueueM_ok w st (cs.map mkRes) newP inv.multi inv.wfp inv.segs inv.pid inv.topo inv.jobs inv.whole hndN hres
+    (PM.quiet_touched w st cs js newP F inv)
+  generalize prEnqueue w st (cs.map mkRes) newP = sa at sas
+  rw [PM.prNoteSuspending_eq]
+  have hk0 : (sa.susp.map (·.1)).Nodup := by rw [sas]; exact inv.keys
+  obtain ⟨n1, _, n3, _⟩ := PM.setAll_spec (PM.noteList w) sa.susp hk0
+  have hxin : x ∈ PM.setAll sa.susp (PM.noteList w) := by
+    apply n3 x (by rw [sas]; exact hx)
+    rw [PM.noteList_keys', e]
+    exact (cDS c.cid (List.mem_map_of_mem (List.mem_flatMap.mpr ⟨p, hp, hcp⟩))).1
+  have hfind := find_of_mem_nodup n1 hxin
+  rw [e] at hfind
+  refine ⟨x.2, suspended_work_is_requeued w _ k c x.1 x.2 hk (by rw [hkp]; exact hcp) hfind, (inv.ent x hx c (Or.inl hc) e.symm).1⟩
+
 
 end Eudoxia.C12
